@@ -5,8 +5,20 @@ evidence files.  See DESIGN.md section 2.
 import fcntl, hashlib, importlib, json, os, random, re, subprocess, sys, time, traceback
 
 VERIF = os.path.dirname(os.path.dirname(os.path.abspath(__file__)))
-COQ = os.path.join(VERIF, "coq")
 REPO = os.environ.get("ENSPARA_REPO", "/repo")
+COQ = os.path.join(VERIF, "coq")
+if os.path.realpath(REPO) != "/repo" and not os.environ.get("VERIF_SHARED_COQ"):
+    # runs against a scratch tree (mutation testing) get a private copy of the Coq tree (with the
+    # compiled files, timestamps preserved), so that the Gen files regenerated from the mutated
+    # source never leak into the tree that checks of /repo use; removed when the run ends.
+    import atexit, shutil
+    COQ = os.path.join(VERIF, ".cache", "coq_scratch",
+                       hashlib.sha1(os.path.realpath(REPO).encode()).hexdigest()[:12] + "_%d" % os.getpid())
+    os.makedirs(os.path.dirname(COQ), exist_ok=True)
+    subprocess.run(["rsync", "-a", "--delete", "--exclude", "Cases/", os.path.join(VERIF, "coq") + "/", COQ + "/"],
+                   check=True)
+    os.makedirs(os.path.join(COQ, "Cases"), exist_ok=True)
+    atexit.register(lambda d=COQ: shutil.rmtree(d, ignore_errors=True))
 NPROC = 16
 
 ALLOWED_AXIOMS = {
@@ -304,17 +316,25 @@ def run_check(pid, tier, replay=None):
         bootstrap.install(world)
     except SystemExit as ex:
         violations.append({"kind": "build-failed", "key": "build", "detail": str(ex), "case": None})
-    with Lock():   # short critical section: generated files and the Makefile only
+    props_rel = mod.PROPS_FILE
+    build_targets = list(mod.MODEL_TARGETS) + ["CaseLib.vo"]
+    with Lock():   # critical section: generated files, the Makefile, and a rebuild when one is needed
         rejected = run_translators([mod])
         ensure_makefile()
+        # Several checks share Gen files and compiled models.  When the source changed, exactly one
+        # process rebuilds them (under the lock); when everything is up to date (the normal case)
+        # `make -q` says so and the lock is released at once.
+        rc_q, _ = sh(["make", "-q"] + build_targets + [props_rel + "o"], cwd=COQ, timeout=600)
+        if rc_q != 0:
+            make(build_targets)
+            make([props_rel + "o"])
     for m, err in rejected:
         violations.append({"kind": "translator-rejected-source", "key": "translator",
                            "detail": err, "case": None,
                            "names": "translator for %s" % ", ".join(getattr(m, "GEN_FILES", []))})
     # model files first (cases need them even when a proof is broken)
-    model_ok, model_log = make(list(mod.MODEL_TARGETS) + ["CaseLib.vo"])
+    model_ok, model_log = make(build_targets)
     # ---- 2. proof obligations
-    props_rel = mod.PROPS_FILE
     proof_ok, proof_log = make([props_rel + "o"])
     assumptions_out = ""
     if proof_ok:
